@@ -250,11 +250,18 @@ theorem scalingLock_rest (s : BP α) :
 def advValueToks (q : List Tok) : List Tok :=
   ((lockRest q).dropWhile (fun t => isWsComment t.kind)).takeWhile (fun t => t.kind != .word)
 
+/-- the token `parse_advanced_quantity` tests for being the blank between value and unit: the last
+    of the value tokens that is not a block comment (after the repair of defect F-C17-1; before it
+    this was simply the last value token, so that `{2 [- c -]cups}` was declined) -/
+def advSepTok (q : List Tok) : Option Tok :=
+  (advValueToks q).reverse.find? (fun t => t.kind != .blockComment)
+
 /-- a syntactic reason why `parse_advanced_quantity` declines: there is a `%`, or the tokens before
-    the first word (which is the whole quantity when there is no word) do not end in whitespace:
-    `{2}`, `{1/2}`, `{2%cups}`, `{a pinch}`, `{=3}` but not `{2 cups}` -/
+    the first word (which is the whole quantity when there is no word) do not end in whitespace,
+    block comments at their end not counted:
+    `{2}`, `{1/2}`, `{2%cups}`, `{a pinch}`, `{=3}`, `{2[- c -]cups}` but not `{2 cups}`, `{2 [- c -]cups}` -/
 def advNone (q : List Tok) : Bool :=
-  q.any (fun t => t.kind == .percent) || ((advValueToks q).getLast?.map (·.kind)) != some .ws
+  q.any (fun t => t.kind == .percent) || ((advSepTok q).map (·.kind)) != some .ws
 
 theorem withRecover_none_ext {β : Type} {f : P α (Option β)} {s : BP α}
     (h : ∃ c, f s = (none, { s with cur := c })) : withRecover f s = (none, s) := by
@@ -298,7 +305,8 @@ theorem parseAdvancedQuantity_declines (s : BP α) (hc : s.cur = 0) (h : advNone
       rw [r2']
     rw [e3']
     dsimp only
-    cases hl : (advValueToks s.toks).getLast? with
+    unfold advSepTok at h
+    cases hl : (advValueToks s.toks).reverse.find? (fun t => t.kind != .blockComment) with
     | none => exact ⟨c3, rfl⟩
     | some l =>
       rw [hl] at h
